@@ -421,6 +421,8 @@ def compare_acts(sc, fin, recs):
         if got is None:
             bad.append("activity %d (%s): no completion record, reference says %s at %s" % (i + 1, a["kind"], want, wfin))
             continue
+        if want == "done" and fin.get("tie", [False] * len(sc["acts"]))[i] and got["state"] in FAILED_STATES and near(got["clock"], wfin):
+            continue        # completion and failure of a resource at the same date: the outcome of the tie is left open
         if want == "done":
             if got["state"] != "done" or not near(got["finish"], wfin):
                 bad.append("activity %d (%s): %s at %.17g, reference: done at %s = %.17g" %
